@@ -490,7 +490,8 @@ FRONT_EXPR = {
     'new-chan': 'new(chan int)', 'new-func': 'new(func())', 'new-array': 'new([2]int)', 'unsafe-ptr': 'up',
 }
 FRONT_FIELD = {'literal': '"A"', 'const': 'fieldConst', 'var': 'fieldVar', 'concat': '"A" + ""', 'raw-string': '`A`', 'spread': 'names...',
-               'star-mixed': '"*", "A"', 'empty': '""', 'int-literal': 'string(rune(65))', 'duplicate': '"A", "A"'}
+               'star-mixed': '"*", "A"', 'empty': '""', 'int-literal': 'string(rune(65))', 'duplicate': '"A", "A"',
+               'repeat-beyond-field-count': '"A", "B", "A"', 'unknown': '"Nope"', 'unexported': '"a"'}
 
 
 def front_files(rc):
